@@ -296,7 +296,7 @@ class PrimMixin:
             if isinstance(h, HObj):
                 return a in h.fields or self.find_method(h.cls, a, fr) is not None
             if isinstance(h, (HArr, HArr2, HStruct)):
-                return a in ("size", "shape", "dtype", "ndim", "astype", "copy", "view", "sum")
+                return a in ("size", "shape", "dtype", "ndim", "astype", "copy", "view", "sum", "__len__")
             if isinstance(h, HList):
                 return a in ("append", "pop", "__len__", "__iter__", "__getitem__")
         if isinstance(v, AbsIterable):
@@ -608,6 +608,10 @@ class PrimMixin:
         f = ufunc("param_" + args[0], I, I)
         return f(to_z3(args[1], "int"))
 
+    def p_builtin_field(self, args, kw, st, fr, node):
+        h = st.get(args[0])
+        return h.fields[args[1]]
+
     def p_builtin_is_none(self, args, kw, st, fr, node):
         return args[0] is None
 
@@ -675,7 +679,7 @@ class PrimMixin:
                 return "real"
             if n in ("bool", "bool_"):
                 return "bool"
-        if isinstance(dt, Opaque) and dt.tag.startswith("dtype:"):
+        if hasattr(dt, "tag") and isinstance(dt.tag, str) and dt.tag.startswith("dtype:"):
             return dt.tag[6:]
         raise Unsupported("dtype %r" % (dt,), node)
 
